@@ -11,6 +11,7 @@ def build(ctx):
     common.pass_tasks(ctx, ['resolve_constants', 'resolve_labels', 'resolve_register_aliases', 'transform_compressible', 'transform_pseudo_instructions',
                             'resolve_aligns', 'resolve_immediates'])
     ctx.task('contracts.exprs:task_exprs')
+    ctx.task('contracts.pipeline:task_pipeline')      # assemble() establishes what each pass contract assumes
     ctx.task('contracts.encoders:task_lookup_register')
     # register-alias lemma: exhaustive over the real REGISTERS table, on the real code
     from pyvc.real import real
